@@ -332,6 +332,7 @@ CTOR_STMT = {
     "varZero": ("var v%(n)d %(t)s", "var g%(n)d %(t)s"),
     "varPtr": ("var v%(n)d *%(t)s", "var g%(n)d *%(t)s"),
     "varBlank": ("var _ %(t)s", None),
+    "varGroup": ("\tv%(n)d %(t)s", "\tg%(n)d %(t)s"),
     "onU": ("_ = %(q)sU{X: %(n)d}", None),
     "litTG": ("_ = %(q)sTG{X: %(n)d}", None),
     "litOT": ("_ = o.T{X: %(n)d}", None),
@@ -369,8 +370,14 @@ def ctor_container(c, n, pkg, qual, handles):
     post = []
     if k != "pkgdecl" and c["stmt"] in ("new", "varZero", "varPtr", "new2", "varZero2", "newRec", "varRec"):
         post = ["_ = v%d" % n]
+    group = ["var (", "\th%d = func() int {" % n, "\t\tconst k%d = %d" % (n, n), "\t\treturn k%d" % n, "\t}"]
+    if k == "pkgdecl" and c["stmt"] == "varGroup":
+        return group, [], stmt.lstrip("\t"), [], [")"]
     if k == "pkgdecl":
         return [], [], stmt, [], []
+    if c["stmt"] == "varGroup":
+        fnpre = fnpre + group
+        post = [")", "_, _ = h%d, v%d" % (n, n)]
     hdr = {
         "ctor1": "func NewT() {",
         "ctor2": "func MakeT() {",
